@@ -37,8 +37,9 @@ CHECKS = {
    text="Lattice laws: the real nilness lattice (merge table read with symbolic indices, kept on one path as ite chains), DenseMapLattice and MapLattice are executed symbolically over all triples "
         "(elements symbolic; slice lengths / key presence enumerated) and the solver decides associativity, commutativity, idempotence, identity, and agreement of Merge/Equals with the pointwise model. "
         "dense.Forward: whole runs of the real solver (worklist, heap, graph.Compact/ReversePostorder, In/Edge accessors) on every directed graph with 2 nodes (self-loops, 2-bit facts) and 3 nodes "
-        "(1-bit facts, gen-only and gen/kill transfer with symbolic coefficients, symbolic entry facts); the solver decides the fixpoint equations and leastness against an arbitrary symbolic pre-fixpoint.",
-   note="Bounds: graphs <= 3 nodes (self-loops at N=3 only in thorough), facts <= 2 bits, monotone gen/kill transfer functions. sparse.Forward (per-value solver) is not yet covered. "
+        "(1-bit facts, gen-only and gen/kill transfer with symbolic coefficients, symbolic entry facts); the solver decides the fixpoint equations and leastness against an arbitrary symbolic pre-fixpoint. "
+        "sparse.Forward: whole runs on every def-use graph of 2 (thorough 3) ir.BinOp/ir.Phi instructions in every order with symbolic gen/mask transfer and parameter states: phi = merge of edges, value = transfer of operands, leastness.",
+   note="Bounds: graphs <= 3 nodes (self-loops at N=3 only in thorough), facts <= 2 bits, monotone gen/kill transfer functions; sparse graphs <= 3 instructions over 2 parameters. "
         "Graph shape is enumerated by forking; data-dependent worklist behaviour forks on fact comparisons.",
    technique="bounded symbolic execution of go/ssa + SMT (z3/cvc5), native replay of models",
    design="3/C13"),
@@ -56,8 +57,10 @@ CHECKS = {
    level="model_checking",
    text="Graph level: the real SerializedGraph.Results / colorAndQuieten / color / Merge are executed on every graph with a root and 3 objects (uses arbitrary, owns acyclic), under all node numberings, "
         "all orders of the merged node list and a repeated merge; asserted: verdict = reachability over uses, quiet = transitively owned by an unused object, exactly-one-verdict partition, "
-        "invariance under renumbering/reordering/repetition, and monotonicity under an added reference from used code.",
-   note="Finite space explored exhaustively within the bound by forking (solver decides feasibility). Outside: construction of the graph from syntax (file/declaration order), the variant merge loop of linter.lint (planned), graphs > 4 objects.",
+        "invariance under renumbering/reordering/repetition, and monotonicity under an added reference from used code. "
+        "Variant merge: the real (*linter).lint with the runner stubbed out, 2 packages in 2+1 / 2+2 variants with symbolic object listings (line, name, file base, ObjectPath package, used/unused/absent, U1000 enabled): "
+        "the U1000 diagnostics are exactly the unused listings of objects that no variant of the same package lists as used.",
+   note="Finite space explored exhaustively within the bound by forking (solver decides feasibility). Outside: construction of the graph from syntax (file/declaration order), everything upstream of the runner's per-variant results (loading, analysis, gob), graphs > 4 objects, > 2 listings per variant.",
    technique="bounded symbolic execution of go/ssa + SMT feasibility, native replay of models",
    design="3/C17"),
  "C10": dict(
